@@ -14,6 +14,7 @@ Fixpoint has_sk (s : sk) (c : content) {struct s} : bool :=
   | SNum, Numpy _ [_] _ => true
   | SList s', ListOffset _ _ c' => has_sk s' c'
   | SList s', ListA _ _ _ c' => has_sk s' c'
+  | SList s', Regular c' size _ => negb (size =? 1) && has_sk s' c'
   | SIx s', Indexed _ _ c' => has_sk s' c'
   | SIx s', IndexedOption _ _ c' => has_sk s' c'
   | SIx s', ByteMasked _ _ c' => has_sk s' c'
@@ -222,12 +223,50 @@ Lemma zip_firstn_r {A B} (l : list A) (m : list B) : zip l (firstn (length l) m)
 Proof. revert m. induction l; destruct m; cbn; auto. now rewrite IHl. Qed.
 
 (* the (starts, stops, content) view of a list node of the fragment *)
+Definition reg_n (c : content) (size zl : Z) : Z := if size =? 0 then zl else clen c / size.
 Definition lv_s (x : content) : list Z :=
-  match x with ListOffset _ o _ => removelast o | ListA _ s _ _ => s | _ => [] end.
+  match x with
+  | ListOffset _ o _ => removelast o | ListA _ s _ _ => s
+  | Regular c size zl => map (fun i => i * size) (iota (reg_n c size zl))
+  | _ => [] end.
 Definition lv_e (x : content) : list Z :=
-  match x with ListOffset _ o _ => tl o | ListA _ s e _ => take (zlen s) e | _ => [] end.
+  match x with
+  | ListOffset _ o _ => tl o | ListA _ s e _ => take (zlen s) e
+  | Regular c size zl => map (fun i => (i + 1) * size) (iota (reg_n c size zl))
+  | _ => [] end.
 Definition lv_c (x : content) : content :=
-  match x with ListOffset _ _ c | ListA _ _ _ c => c | _ => Empty end.
+  match x with ListOffset _ _ c | ListA _ _ _ c | Regular c _ _ => c | _ => Empty end.
+
+Lemma skipn_skipn' {A} (a b : nat) (l : list A) : skipn a (skipn b l) = skipn (b + a) l.
+Proof.
+  revert l. induction b as [|b IH]; intros l; [reflexivity|].
+  destruct l; cbn [skipn plus]; [now destruct a|]. apply IH.
+Qed.
+Lemma drop_drop {A} (l : list A) a b : 0 <= a -> 0 <= b -> drop a (drop b l) = drop (a + b) l.
+Proof.
+  intros Ha Hb. unfold drop. rewrite skipn_skipn'. f_equal. lia.
+Qed.
+Lemma chunks_nat_map {A} (n : Z) : 0 <= n -> forall k (vs : list A),
+  chunks_nat vs n k = map (fun i => take n (drop (i * n) vs)) (iota_nat 0 k).
+Proof.
+  intros Hn. induction k as [|k IH]; intros vs; cbn [chunks_nat iota_nat map]; [reflexivity|].
+  rewrite Z.mul_0_l. change (drop 0 vs) with vs. f_equal.
+  rewrite IH. rewrite (iota_nat_shift 0 1 k), map_map.
+  apply map_ext_in. intros i Hi. apply iota_nat_In in Hi. rewrite drop_drop by nia. do 2 f_equal. ring.
+Qed.
+Lemma regular_cut1 {A} (vs : list A) size n :
+  0 < size -> n = zlen vs / size ->
+  mapM (cut1 vs) (zip (map (fun i => i * size) (iota n)) (map (fun i => (i + 1) * size) (iota n)))
+  = Ok (chunks_nat vs size (Z.to_nat n)).
+Proof.
+  intros Hs Hn. rewrite zip_map_l, zip_map_r, map_map, zip_same, map_map, mapM_map. cbn [fst snd].
+  rewrite (chunks_nat_map size ltac:(lia)). fold (iota n). rewrite <- mapM_Ok.
+  apply mapM_ext. intros i Hi. apply iota_In in Hi. unfold cut1.
+  replace (i * size =? (i + 1) * size) with false by nia.
+  assert (Hb : (i + 1) * size <= zlen vs).
+  { pose proof (zlen_nonneg vs). assert (size * (zlen vs / size) <= zlen vs) by (apply Z.mul_div_le; lia). nia. }
+  rewrite slice_in by nia. do 2 f_equal. ring.
+Qed.
 Definition lv_lists (x : content) : list (list value) :=
   match mapM (cut1 (vals (lv_c x))) (zip (lv_s x) (lv_e x)) with Ok l => l | Err _ => [] end.
 Definition lv_tuple (x : content) : pars * list Z * list Z * content := (nopar, lv_s x, lv_e x, lv_c x).
@@ -266,6 +305,28 @@ Proof.
     + eexists; eauto.
     + unfold take, zlen in *. rewrite firstn_length. lia.
     + unfold vals. cbn [to_list]. rewrite Hc. cbn. unfold cut2. rewrite E, Hr. reflexivity.
+  - (* Regular, size <> 1 *)
+    apply andb_true_iff in Hs. destruct Hs as [Hs1 Hs].
+    cbn [to_list] in Hx. apply bind_ok in Hx. destruct Hx as (vc & Hc & Hx).
+    apply rmap_ok in Hx. destruct Hx as (r & Hr & ->).
+    unfold lv_tuple, lv_lists. cbn [lv_s lv_e lv_c]. rewrite (vals_ok _ _ Hc).
+    pose proof (to_list_len _ _ Hc) as Hlc.
+    unfold chunks in Hr. destruct (size <? 0) eqn:E0; [discriminate|].
+    assert (HM : mapM (cut1 vc) (zip (map (fun i => i * size) (iota (reg_n x size zeros_length)))
+                                     (map (fun i => (i + 1) * size) (iota (reg_n x size zeros_length)))) = Ok r).
+    { unfold reg_n. destruct (size =? 0) eqn:E1.
+      - destruct (zeros_length <? 0) eqn:E2; [discriminate|]. inversion Hr; subst r.
+        rewrite zip_map_l, zip_map_r, map_map, zip_same, map_map, mapM_map. cbn [fst snd].
+        rewrite <- mapM_Ok. apply mapM_ext. intros i _. unfold cut1.
+        replace (i * size =? (i + 1) * size) with true by lia. reflexivity.
+      - inversion Hr; subst r. rewrite <- Hlc. apply regular_cut1; [lia|reflexivity]. }
+    rewrite HM.
+    repeat split; auto.
+    + unfold list_parts. cbn [body]. rewrite E0. reflexivity.
+    + eexists; eauto.
+    + rewrite !map_length. reflexivity.
+    + unfold vals. cbn [to_list]. rewrite Hc. cbn. unfold chunks. rewrite E0. 
+      destruct (size =? 0); [destruct (zeros_length <? 0); [discriminate|]|]; rewrite Hr; reflexivity.
 Qed.
 
 Lemma cut1_shift (dc : value -> value) (pre vc rest : list value) x y l :
@@ -583,14 +644,17 @@ Proof.
       change (a :: oth) with cs. unfold cs at 1. unfold oth at 1.
       rewrite Hba.
       assert (Hdisp : match a with
-                      | ListOffset _ _ _ | ListA _ _ _ _ => True | _ => False end).
-      { inversion Hsk; subst. destruct a; cbn in H1; try discriminate; exact I. }
+                      | ListOffset _ _ _ | ListA _ _ _ _ => True
+                      | Regular _ size _ => (size =? 1) = false
+                      | _ => False end).
+      { inversion Hsk; subst. destruct a; cbn in H1; try discriminate; try exact I.
+        apply andb_true_iff in H1. destruct H1 as [H1 _]. apply negb_true_iff in H1. exact H1. }
       assert (Hml : mm_list (mm f') a (b :: others) = Ok (ListA I64 ss es cm)).
       { unfold mm_list.
         rewrite split_head_none.
         2:{ inversion HV as [|? ? _ Hrest]; subst. eapply Forall_impl; [|exact Hrest]. cbn. tauto. }
         assert (Hself : self_list a = Ok a).
-        { unfold self_list. rewrite Hba. destruct a; try contradiction; reflexivity. }
+        { unfold self_list. rewrite Hba. destruct a; try contradiction; try reflexivity. rewrite Hdisp. reflexivity. }
         rewrite Hself. cbn [bind].
         change (a :: b :: others) with cs.
         rewrite (mapM_singletons list_parts lv_tuple cs) by (eapply Forall_impl; [|exact HV]; cbn; tauto).
@@ -716,6 +780,12 @@ Proof.
       { intros p Hin. apply pair_okb_cut1. eapply forallb_forall in Hp; eauto. }
       exists (map VList r). cbn [to_list]. rewrite Hvc. cbn. unfold cut2.
       replace (zlen stops <? zlen starts) with false by lia. rewrite Hr. reflexivity.
+    + apply andb_true_iff in Hs. destruct Hs as [_ Hs].
+      apply andb_true_iff in Hv. destruct Hv as [Hv Hc]. destruct (IH _ Hs Hc) as [vc Hvc].
+      apply andb_true_iff in Hv. destruct Hv as [Hv Hz]. apply andb_true_iff in Hv. destruct Hv as [_ Hsz].
+      unfold tl_ok. cbn [to_list]. rewrite Hvc. cbn [bind]. unfold chunks.
+      replace (size <? 0) with false by lia.
+      destruct (size =? 0); [replace (zeros_length <? 0) with false by lia|]; eexists; reflexivity.
   - destruct c; cbn in Hs; try discriminate; cbn [validb paramcheck] in Hv.
     + (* Indexed *)
       apply andb_true_iff in Hv. destruct Hv as [Hv Hc]. destruct (IH _ Hs Hc) as [vc Hvc].
